@@ -70,23 +70,23 @@ CLAIMED = {
 
 # universes added after four rounds of seeded changes (DESIGN.md 11.7); appended to the level text of each check
 EXT = {
- "C01": "Further universes: zero-length files, trees large in size only (130 members, 8-level chain, 200 kB / 1.1 MB files), names with dots / blanks / URL metacharacters / URL-like forms, transfer-then-write pairs (DavPairs: every transfer the model carries out followed by every write below its source and destination), modification time among the judged entity headers.",
- "C02": "Further universes: uploads with an intact body under a pre-cancelled context, faulting uploads under If-None-Match: *, siblings named like scratch files of the target (a.part, a.tmp, a~, .a.tmp), dotted names, the raw spelling universe of C03 judged for failure atomicity, big trees.",
- "C03": "Quick tier also runs names needing escapes and dotted names with href follow-ups.",
+ "C01": "Further universes: zero-length files, trees large in size only (130 members, 8-level chain, 200 kB / 1.1 MB files), names with dots / blanks / URL metacharacters / URL-like forms, transfer-then-write pairs (DavPairs: every transfer the model carries out followed by every write below its source and destination), modification time among the judged entity headers. Request bodies delivered in short reads, noisy equivalent spellings of the request path (trailing slash, empty and dot segments), names with pattern metacharacters (q*, a[b, {a,b}) next to siblings the pattern matches, names with a backslash.",
+ "C02": "Further universes: uploads with an intact body under a pre-cancelled context, faulting uploads under If-None-Match: *, siblings named like scratch files of the target (a.part, a.tmp, a~, .a.tmp), dotted names, the raw spelling universe of C03 judged for failure atomicity, big trees. Storage faults (file size limit lowered while the request is served) on uploads and transfers; request contexts cancelled before the handler runs or from their k-th look on, for every transfer, removal and collection creation.",
+ "C03": "Quick tier also runs names needing escapes and dotted names with href follow-ups. Two served directories in one process (the sibling directory served by a second handler that is asked for the same paths first); names with a backslash; a recorder failure is only a machinery failure if what was recorded before shows nothing.",
  "C04": "Conditionals on absent resources follow the statement literally (If-None-Match holds, If-Match 412); the 'other' and 'bad' tag classes rotate through concretisations derived from the current tag (case-folded, suffixed, shortened; unquoted current tag, W/ prefix, unterminated).",
  "C05": "Plus client-driven histories (DavSim ClientMix -> real webdav.Client -> wire round trip -> real Handler; DavJudge WireChecks / ResultChecks) incl. a large-tree history, URL-like and index names (webby), non-canonical MIME spellings, a 4 500-member listing.",
- "C07": "Unknown enumeration values judged by in-order evaluation (LazyQuery; eager validation stays accepted); is-not-defined combined with text-matches; a card with a repeated property.",
+ "C07": "Unknown enumeration values judged by in-order evaluation (LazyQuery; eager validation stays accepted); is-not-defined combined with text-matches; a card with a repeated property. The largest limit of the platform (MaxInt).",
  "C08": "Conformant spellings the own client never emits (calendar-data without comp, negate-condition=no, collation), documents beyond 64 KiB (3 000 hrefs, 100 000-character text), sub-second instants, a multiget without paths used for two collections in a row.",
- "C09": "Conformant spellings the own client never emits (negate-condition=no, collation), documents beyond 64 KiB, carriage returns in match texts, a multiget without paths used twice, more non-numeric limits.",
+ "C09": "Conformant spellings the own client never emits (negate-condition=no, collation), documents beyond 64 KiB, carriage returns in match texts, a multiget without paths used twice, more non-numeric limits. Limits beyond 32 bits (2^32+7, MaxInt64) as concretisations of the specification's largest limit tokens, in the API value and in the document text.",
  "C10": "Absent tag / time values, empty component set, absent404 layouts, wrapped backend errors, a 150-href multiget, PUT by relative name. Plus store histories: a TLA+ state machine of the object store (Store: put / get / del / mget / query / cols / mkcol; TLC checks TagsFresh, WellFormed, Pure, ReadYourWrite, QuerySound, NewTag on a bounded instance), TLC-simulated histories of 24-120 calls performed by two long-lived real clients against one long-lived real CalDAV and CardDAV handler over a stateful backend, every answer judged against the state the MODEL reached (StoreJudge). And synchronisation histories: RFC 6578 state machine (Sync: server store + change log, client token + replica; TLC checks Converged, Snapshot, Monotone, CatchUp), simulated histories of server-side changes and SyncCollection calls (limits, truncation) against an independent responder, the request on the wire (token, level, limit), the answer and the caller's replica judged by SyncJudge.",
- "C11": "Lower bound MustHave of properties per resource kind (incl. a zero-length file); the same local name in two namespaces.",
+ "C11": "Lower bound MustHave of properties per resource kind (incl. a zero-length file); the same local name in two namespaces. Names that differ from a known one in letter case only.",
  "C12": "A second user (request context) on the same handler in every discovery chain.",
- "C13": "Graft mutants, byte-edit universe over rich valid documents (single edits exhaustive, pairs seeded), PROPPATCH mutants, the documents CalWire / CardWire classify as outside the RFC, malformed conditional headers, object type with unparsable parameters.",
+ "C13": "Graft mutants, byte-edit universe over rich valid documents (single edits exhaustive, pairs seeded), PROPPATCH mutants, the documents CalWire / CardWire classify as outside the RFC, malformed conditional headers, object type with unparsable parameters. A 207 must carry a well-formed document (complete response); selection conflicts on a nested comp.",
  "C14": "Per-property failing propstats (x<k>f<code>), per-response statuses of every class (resp<code>), failed responses carrying condition and description, stalled bodies, unparsable payloads, long-lived clients; the DAV:error condition must arrive as an element of the library's error value.",
  "C15": "Trees large in size only (48-level chain, 300 children; Xml operators evaluate eagerly), capture into a used value, typed decoding of namespace variants (agreement required).",
  "C16": "Near-miss texts generated from token sequences (HTTP dates, iCalendar date-times).",
- "C17": "OS-limit universe (ENAMETOOLONG), spellings of the served directory (trailing slash, /., doubled separator, dot-dot detour, relative to the working directory).",
- "C18": "CalDAV / CardDAV handlers and the principal helper shared by up to 32 goroutines under the race detector (davxrec), every answer compared with the answer alone; DavConc3 bounded to four requests in total (6.1 M states), DavConcDeep.",
+ "C17": "OS-limit universe (ENAMETOOLONG), spellings of the served directory (trailing slash, /., doubled separator, dot-dot detour, relative to the working directory). Storage faults (no file may grow beyond 4096 bytes while the request is served: RLIMIT_FSIZE, one recorder shard; skipped with a note if the limit cannot be set) on uploads and transfers; broken uploads whose target was removed in the meantime.",
+ "C18": "CalDAV / CardDAV handlers and the principal helper shared by up to 32 goroutines under the race detector (davxrec), every answer compared with the answer alone; DavConc3 bounded to four requests in total (6.1 M states), DavConcDeep. A design probe decides whether the step-by-step replay applies (request in flight from Create on, synchronous Writes); an implementation of another shape is judged on the recorded direction only; a failing Write after the transport has answered or failed is a behaviour of the model (TCloseBody commutes).",
  "C19": "METHOD values per concretisation, including the empty one.",
 }
 
